@@ -81,15 +81,20 @@ func cmdVerify(args []string) {
 			fmt.Println("   ERROR:", e)
 			bad++
 		}
+		vac, _ := vacuous(r.Obls)
+		isVac := map[*Obligation]bool{}
+		for _, o := range vac {
+			isVac[o] = true
+		}
 		for _, o := range r.Obls {
-			ok := (o.Verdict == "unsat" && !o.Cover) || (o.Cover && o.Verdict == "sat")
+			ok := (o.Verdict == "unsat" && !o.Cover) || (o.Cover && !isVac[o])
 			mark := "ok  "
 			if !ok {
 				mark = "FAIL"
 				bad++
 			}
 			fmt.Printf("   %s %-8s %-7s %5.2fs %s  [%s] %s\n", mark, o.Verdict, o.Solver, o.Time, o.ID, o.Pos, o.Desc)
-			if !ok && !o.Cover && o.Verdict == "sat" {
+			if !ok && !o.Cover && strings.HasPrefix(o.Verdict, "sat") {
 				m := parseGetValue(o.Raw, o.Inputs)
 				var ns []string
 				for _, in := range o.Inputs {
